@@ -101,6 +101,11 @@ PlusFlagAmbiguity(p, s) == p \in {"G", "SG"} /\ (Ch(s, 1) \in {"+", "$"} \/ s = 
 \* Same root as C05's CapturedBy_SpartanProtocol for selectors.  (A string like "a 1" after a blank-free selector
 \* is NOT such a line: only a TAB separates selector and string.)
 SearchCapturedBy(p, t, base, s) == LET cls == Parse(Follow(p, t, base, s)).cls IN IF cls = OwnClass(p) THEN "none" ELSE cls
+\* Gemini's search dialogue answers the submitted query with "30 <selector>?<query>"; since fix 1211cf5 every
+\* status line keeps <META> within the 1024 bytes of the Gemini specification by CUTTING it, so a query whose redirect
+\* does not fit is delivered truncated (instead of being refused)
+GeminiRedirectCut(p, t, base, s) ==
+    p = "M" /\ LET r1 == Parse(Follow(p, t, base, s)) IN r1.kind = "redirect" /\ Bytes(r1.redirect) > 1024
 \* search strings the property quantifies over: no leading/trailing blanks (Gopher request parsing strips them), not empty
 SearchInScope(s) == s # "" /\ Strip(s) = s
 =============================================================================
